@@ -105,3 +105,48 @@ V('C15', 'discard-closes-before-unregistering', F, P + 'BasePool._discard_conn',
         await self._disconnect(conn, block)
         block.conns.pop(conn)
 ''', 'C15.R4', '_discard_conn:disconnect-of-unregistered')
+
+# round 4
+V('C15', 'retry-deferred-by-timer', 'edb/server/connpool/pool.py',
+  'edb.server.connpool.pool.BasePool._connect',
+  '                self._schedule_new_conn(block, event)\n',
+  '                self._get_loop().call_later(0.05, self._schedule_new_conn, block, event)\n',
+  'C15.R2', 'deferred=_schedule_new_conn')
+V('C15', 'replacement-even-when-handed-over', 'edb/server/connpool/pool.py',
+  'edb.server.connpool.pool.Pool.release',
+  '''        if not (
+            self._should_free_conn(block)
+            and self._maybe_free_into_starving_blocks(block, conn)
+        ):
+            if discard:
+                # Concurrent `acquire()` may be waiting to reuse the released
+                # connection here - as we should discard this one, let's just
+                # schedule a new one in the same block.
+                self._schedule_discard(block, conn)
+                self._schedule_new_conn(block)
+            else:
+                self._release_unused(block, conn)
+''', '''        freed = (
+            self._should_free_conn(block)
+            and self._maybe_free_into_starving_blocks(block, conn)
+        )
+        if discard:
+            if not freed:
+                self._schedule_discard(block, conn)
+            self._schedule_new_conn(block)
+        elif not freed:
+            self._release_unused(block, conn)
+''', 'C15.R2', 'Pool.release:call=_schedule_new_conn')
+# negative control: same decision with a local for the hand-over result
+V('C15', 'release-with-local-flag', 'edb/server/connpool/pool.py',
+  'edb.server.connpool.pool.Pool.release',
+  '''        if not (
+            self._should_free_conn(block)
+            and self._maybe_free_into_starving_blocks(block, conn)
+        ):
+            if discard:''', '''        handed_over = (
+            self._should_free_conn(block)
+            and self._maybe_free_into_starving_blocks(block, conn)
+        )
+        if not handed_over:
+            if discard:''', None)
